@@ -553,6 +553,7 @@ func expandCore(p *packages.Package, src []byte, call *ast.CallExpr, c *candidat
 	label := "L" + suffix
 	// rename map: parameter / receiver / named-result objects → fresh names
 	ren := map[types.Object]string{}
+	litArgs := map[types.Object]*ast.FuncLit{}
 	var pre []string
 	// receiver
 	if fd.Recv != nil && len(fd.Recv.List) == 1 {
@@ -602,6 +603,10 @@ func expandCore(p *packages.Package, src []byte, call *ast.CallExpr, c *candidat
 				types.Identical(p.TypesInfo.TypeOf(id), pobj.Type()) && !shadowedIn(p.TypesInfo, fd.Body, id.Name) {
 				// an argument that is a plain local of the caller, bound to a parameter the helper never assigns: substituted
 				ren[pobj] = id.Name
+			} else if lit, isLit := call.Args[ai].(*ast.FuncLit); isLit && pobj != nil && litCallsOnly(p.TypesInfo, fd.Body, pobj, lit) {
+				// a predicate literal that the helper only calls, with plain variables as arguments, and whose body is one
+				// returned expression: every call is replaced by that expression (no closure is created in the copy)
+				litArgs[pobj] = lit
 			} else {
 				if pobj != nil {
 					ren[pobj] = name
@@ -653,6 +658,74 @@ func expandCore(p *packages.Package, src []byte, call *ast.CallExpr, c *candidat
 		}
 		return true
 	})
+	// calls of predicate-literal parameters → the literal's expression with the call's arguments substituted
+	if len(litArgs) > 0 {
+		type span struct{ pos, end int }
+		var spans []span
+		ast.Inspect(fd.Body, func(nd ast.Node) bool {
+			ce, ok := nd.(*ast.CallExpr)
+			if !ok {
+				return true
+			}
+			fid, ok := ce.Fun.(*ast.Ident)
+			if !ok {
+				return true
+			}
+			lit := litArgs[p.TypesInfo.Uses[fid]]
+			if lit == nil {
+				return true
+			}
+			// parameter objects of the literal → argument text at this call
+			sub := map[types.Object]string{}
+			k := 0
+			unused := ""
+			for _, fld := range lit.Type.Params.List {
+				for _, nm := range fld.Names {
+					a := ce.Args[k].(*ast.Ident)
+					txt := a.Name
+					if nn, isRen := ren[p.TypesInfo.Uses[a]]; isRen {
+						txt = nn
+					}
+					if nm.Name != "_" {
+						sub[p.TypesInfo.Defs[nm]] = txt
+					} else {
+						// the literal ignores this argument; keep the variable "used" without evaluating anything
+						unused += "(false && interface{}(" + txt + ") == nil) || "
+					}
+					k++
+				}
+			}
+			ret := lit.Body.List[0].(*ast.ReturnStmt).Results[0]
+			var es []edit
+			base := off(ret.Pos())
+			ast.Inspect(ret, func(x ast.Node) bool {
+				if id, isId := x.(*ast.Ident); isId {
+					if txt, isP := sub[p.TypesInfo.Uses[id]]; isP {
+						es = append(es, edit{off(id.Pos()) - base, off(id.End()) - base, txt})
+					}
+				}
+				return true
+			})
+			expr := string(applyEdits(append([]byte(nil), src[base:off(ret.End())]...), es))
+			spans = append(spans, span{off(ce.Pos()), off(ce.End())})
+			edits = append(edits, edit{off(ce.Pos()), off(ce.End()), "(" + unused + "(" + expr + "))"})
+			return false
+		})
+		// identifier renames inside a replaced call are subsumed by the replacement
+		var kept []edit
+		for _, e := range edits {
+			inside := false
+			for _, sp := range spans {
+				if e.pos >= sp.pos && e.end <= sp.end && !(e.pos == sp.pos && e.end == sp.end) {
+					inside = true
+				}
+			}
+			if !inside {
+				kept = append(kept, e)
+			}
+		}
+		edits = kept
+	}
 	okRet := true
 	var walk func(nd ast.Node, inLit bool)
 	walk = func(nd ast.Node, inLit bool) {
@@ -1181,4 +1254,79 @@ func (lw *lowerer) stmt(st ast.Stmt) (string, bool) {
 		return "{\n" + pre + string(lw.src[lw.off(x.Pos()):lw.off(x.X.Pos())]) + r + " " + string(lw.src[lw.off(x.Body.Pos()):lw.off(x.End())]) + "\n}", true
 	}
 	return "", false
+}
+
+// litCallsOnly: the function-valued parameter prm is bound to a literal whose body is a single `return <expr>`; the helper
+// never assigns prm and uses it only as the callee of calls whose arguments are plain identifiers (not inside a nested
+// literal); and no name the literal's expression refers to is declared inside the helper (it would be captured).
+func litCallsOnly(info *types.Info, body *ast.BlockStmt, prm types.Object, lit *ast.FuncLit) bool {
+	if len(lit.Body.List) != 1 || lit.Type.Results == nil || len(lit.Type.Results.List) != 1 {
+		return false
+	}
+	rs, ok := lit.Body.List[0].(*ast.ReturnStmt)
+	if !ok || len(rs.Results) != 1 {
+		return false
+	}
+	if assignedIn(info, body, prm) {
+		return false
+	}
+	nparams := 0
+	own := map[types.Object]bool{}
+	for _, fld := range lit.Type.Params.List {
+		if len(fld.Names) == 0 {
+			return false
+		}
+		for _, nm := range fld.Names {
+			nparams++
+			if d := info.Defs[nm]; d != nil {
+				own[d] = true
+			}
+		}
+	}
+	bad := false
+	ast.Inspect(rs.Results[0], func(n ast.Node) bool {
+		switch x := n.(type) {
+		case *ast.FuncLit:
+			bad = true
+		case *ast.Ident:
+			if o := info.Uses[x]; o != nil && !own[o] && shadowedIn(info, body, x.Name) {
+				bad = true
+			}
+		}
+		return true
+	})
+	if bad {
+		return false
+	}
+	calls := map[*ast.Ident]bool{}
+	depth := 0
+	var visit func(n ast.Node) bool
+	visit = func(n ast.Node) bool {
+		switch x := n.(type) {
+		case *ast.FuncLit:
+			depth++
+			ast.Inspect(x.Body, visit)
+			depth--
+			return false
+		case *ast.CallExpr:
+			if id, ok := x.Fun.(*ast.Ident); ok && info.Uses[id] == prm {
+				if depth > 0 || len(x.Args) != nparams || x.Ellipsis.IsValid() {
+					bad = true
+				}
+				for _, a := range x.Args {
+					if aid, isId := a.(*ast.Ident); !isId || !plainLocal(info, aid) {
+						bad = true
+					}
+				}
+				calls[id] = true
+			}
+		case *ast.Ident:
+			if info.Uses[x] == prm && !calls[x] {
+				bad = true
+			}
+		}
+		return true
+	}
+	ast.Inspect(body, visit)
+	return !bad && len(calls) > 0
 }
